@@ -257,16 +257,49 @@ theorem serial_step (c : Cfg) (ts : List Tid) (t : Tid) :
     applyTxns c (ts ++ [t]) = c.body t (if c.repl t then [] else applyTxns c ts) :=
   applyTxns_snoc c ts t
 
-/-- `readers_atomic`: "readers never observe a partially applied transaction": the version a reader holds is an element
-of `_versions`, and every element of `_versions` is the serial application of a prefix of the admitted committing
-transactions (version id = prefix length + 1). -/
+/-- `readers_atomic`: "readers never observe a partially applied transaction": the version a reader holds is one of the
+*published* versions (the first `|committed| + 1` elements of `_versions`; the element appended by a commit that is still
+in progress, and that is withdrawn again if the pruning policy raises, is never handed out), and every published
+version is the serial application of a prefix of the admitted committing transactions (version id = prefix length + 1). -/
 theorem readers_atomic (h : Reach c n s) :
-    (∀ t, readerHasPc (s.loc t).pc = true → (s.loc t).rver ∈ s.versions) ∧
-    ∀ v ∈ s.versions, ∃ i, v = (i + 1, applyTxns c ((admittedCommitters c s).take i)) := by
+    (∀ t, readerHasPc (s.loc t).pc = true → (s.loc t).rver ∈ s.versions.take (s.committed.length + 1)) ∧
+    ∀ v ∈ s.versions.take (s.committed.length + 1),
+      ∃ i, i ≤ s.committed.length ∧ v = (i + 1, applyTxns c ((admittedCommitters c s).take i)) := by
   have hi := (reach_inv h).ser
   refine ⟨hi.rver, fun v hv => ?_⟩
   obtain ⟨i, hi', hv'⟩ := List.getElem_of_mem hv
-  exact ⟨i, hi.versions i v (by simp [hv', hi'])⟩
+  rw [List.length_take] at hi'
+  have hlt : i < s.versions.length := by omega
+  refine ⟨i, by omega, hi.versions i v (by omega) ?_⟩
+  rw [List.getElem_take] at hv'
+  rw [List.getElem?_eq_getElem hlt, hv']
+
+/-- a commit whose pruning policy raises (`c.pruneFails t`; any callback, the theorems hold for every choice) behaves as a
+rollback with hand-off: the appended version is withdrawn under the same lock hold (`cUndo`), the zone content and the
+list of committed transactions do not change, the transaction does not count among the committers, and its end wakes the
+next waiter like every other end (all the admission theorems above quantify over this path too). -/
+theorem failed_commit_is_rollback (h : Reach c n s) (t : Tid) (ht : (s.loc t).pc = .cUndo) :
+    c.pruneFails t = true ∧ willCommit c t = false ∧ s.writeTxn = some t ∧ s.lock = some t ∧
+    s.nodes = applyTxns c s.committed ∧ s.versions.length = s.committed.length + 2 ∧
+    ∃ s', step c s t = some s' ∧ s'.versions = s.versions.dropLast ∧ s'.versions.length = s'.committed.length + 1 ∧
+      s'.nodes = s.nodes ∧ s'.committed = s.committed ∧ (s'.loc t).pc = .eTxnNone := by
+  have hi := reach_inv h
+  have hf := hi.ser.undoF t ht
+  have hw := (hi.lk.own t).mp (by rw [ht]; rfl)
+  have hl := (hi.lk.lock t).mp (by rw [ht]; rfl)
+  have hlen := hi.ser.vlen
+  rw [nAppended_of_own hw] at hlen
+  simp [ht] at hlen
+  refine ⟨hf, by simp [willCommit, hf], hw, hl, hi.ser.nodes, by omega, ?_⟩
+  refine ⟨{ s with versions := s.versions.dropLast }.setLoc t { s.loc t with pc := .eTxnNone }, by simp [step, ht],
+    rfl, ?_, rfl, rfl, by simp⟩
+  simp [List.length_dropLast]; omega
+
+/-- transactions whose commit failed leave no trace in the final zone: with no transaction open, the zone is the serial
+application of the admitted transactions that commit *and* whose pruning went through. -/
+theorem serial_equivalence_failed_commits (h : Reach c n s) (hw : s.writeTxn = none) :
+    s.nodes = applyTxns c (s.admitted.filter fun t => c.role t == .writer true && !c.pruneFails t) :=
+  (serial_equivalence h).2.2 hw
 
 /-- `readers_nonblocking` (1): "readers never wait for a write transaction to end": a reader thread is never parked on an
 event; the only thing that can stop it is `_version_lock` being held at this instant. -/
@@ -393,6 +426,20 @@ def demoScheduleRepl : List Tid :=
 example : ∃ s, run demoCfgRepl init demoScheduleRepl = some s ∧ s.admitted = [0, 1] ∧ s.committed = [0, 1] ∧
     s.nodes = [6] ∧ s.versions = [(1, []), (2, [5]), (3, [6])] ∧ applyTxns demoCfgRepl [0, 1] = [6] :=
   ⟨_, rfl, rfl, rfl, rfl, rfl, rfl⟩
+
+/-- writer 0's commit fails in the pruning policy while writer 1 is queued behind it: the version is withdrawn, writer 1 is
+woken, admitted and commits on top of the *old* zone -/
+def demoCfgFail : Cfg :=
+  { role := fun _ => .writer true, body := fun t x => x ++ [t + 5], pruneFails := fun t => t == 0 }
+def demoScheduleFail : List Tid :=
+  [0, 0, 0, 0, 0, 0, 0, 1, 1, 1, 1, 1, 1, 1, 0, 0, 0, 0, 0, 0, 0]   -- 0 admitted, 1 queued, 0 appends its version
+def demoStateFail : State := (run demoCfgFail init demoScheduleFail).getD init
+example : (demoStateFail.loc 0).pc = .cUndo ∧ demoStateFail.versions = [(1, []), (2, [5])] ∧ demoStateFail.nodes = [] ∧
+    demoStateFail.waiters = [0] := ⟨rfl, rfl, rfl, rfl⟩
+example : ∃ s, run demoCfgFail init (demoScheduleFail ++ [0, 0, 0, 0, 0, 0,
+      1, 1, 1, 1, 1, 1, 1, 1, 1, 1, 1, 1, 1, 1, 1, 1, 1]) = some s ∧
+    s.admitted = [0, 1] ∧ s.committed = [1] ∧ s.nodes = [6] ∧ s.versions = [(1, []), (2, [6])] ∧
+    (s.loc 0).pc = .done ∧ (s.loc 1).pc = .done := ⟨_, rfl, rfl, rfl, rfl, rfl, rfl, rfl⟩
 
 /-! ## Non-vacuity of the fairness hypotheses
 
